@@ -154,6 +154,9 @@ def parts(tier):
     VD = (0.1, 0.3, 0.7, 1.1, 1.3)
     seeds_d = [("I", "t", 0.1, 2.3, ((0.1, 0.2, "a"), (0.2, 0.3, "b"), (0.3, 0.7, "c"))), ("I", "t", 0.1, 2.3, ((0.2, 1.3, "a"),)),
                ("P", "t", 0.1, 2.3, ((0.2, "a"), (1.1, "b")))]
+    if not quick:
+        seeds_d += [("I", "t", 0.1, 2.3, ((0.1, 0.3, "a"), (0.7, 1.1, "b"))), ("I", "t", 0.1, 2.3, ()),
+                    ("P", "t", 0.1, 2.3, ((0.1, "a"), (0.3, "b"), (1.3, "c")))]
     step_di = _mk_step(tierops.OTHERS_I_DEC)
     step_dp = _mk_step(tierops.OTHERS_P_DEC)
 
@@ -165,7 +168,7 @@ def parts(tier):
         lambda s: tierops.menu(s, VD, (0.3, 0.7), (-0.7, -0.1, 0.3, 1.7), maxdiff=0.15), step_dec,
         rule="the full menu on non-dyadic decimals %s (rounding may turn a result into a praatio error, never into an "
              "ill-formed tier)" % (VD,),
-        bounds={"depth": depth, "span_cap": 8, "label_length_cap": 9}, max_depth=depth, prune=_prune_fn(8, 9),
+        bounds={"depth": 3, "span_cap": 8, "label_length_cap": 9}, max_depth=3, prune=_prune_fn(8, 9),
         snippet=lambda c: tierops.snippet(c[0], c[1], tierops.OTHERS_I_DEC if c[0][0] == "I" else tierops.OTHERS_P_DEC)))
 
     deep_seeds = [("I", "t", 0.0, 3.0, ((0.0, 1.0, "a"), (1.0, 2.0, "b"))), ("I", "t", 0.0, 2.0, ())]
